@@ -33,30 +33,12 @@ namespace tsim {
 Ctx *C = nullptr;
 
 
-int parse_call_id(const QString &msg)
+// The identity of a plan message travels in the line number of its source location (call id + 1; 0 =
+// not one of the plan's messages, e.g. a warning logged by Qt itself), so that message *texts* are free
+// to repeat - the duplicate filter and other text-dependent handlers then have real work.
+int parse_call_id(const LogMessage &m)
 {
-    // "m<p>.<i> ..."
-    if (msg.size() < 4 || msg.at(0) != QLatin1Char('m'))
-        return -1;
-    int i = 1, p = 0, k = 0;
-    bool any = false;
-    while (i < msg.size() && msg.at(i).isDigit()) {
-        p = p * 10 + msg.at(i).digitValue();
-        i++;
-        any = true;
-    }
-    if (!any || i >= msg.size() || msg.at(i) != QLatin1Char('.'))
-        return -1;
-    i++;
-    any = false;
-    while (i < msg.size() && msg.at(i).isDigit()) {
-        k = k * 10 + msg.at(i).digitValue();
-        i++;
-        any = true;
-    }
-    if (!any)
-        return -1;
-    return call_id(p, k);
+    return m.line() > 0 ? m.line() - 1 : -1;
 }
 
 void put_cstr(QByteArray &out, const char *s)
@@ -127,7 +109,7 @@ public:
     void send(const LogMessage &m) override
     {
         note_thread();
-        int cid = parse_call_id(m.message());
+        int cid = parse_call_id(m);
         QByteArray c = content_of(m, cid);
         sim::ev(E_DELIVER, m_id, cid, 0, c.constData(), (size_t)c.size());
     }
@@ -142,7 +124,7 @@ public:
     explicit GateSink(int id) : m_id(id) { }
     void send(const LogMessage &m) override
     {
-        int cid = parse_call_id(m.message());
+        int cid = parse_call_id(m);
         // only a logger thread gets "stuck in I/O"; a synchronous caller passes
         int s = sim::self();
         if (s < 0 || s >= 64 || !C->is_worker[s])
@@ -165,7 +147,7 @@ public:
     void send(const LogMessage &m) override
     {
         note_thread();
-        int cid = parse_call_id(m.message());
+        int cid = parse_call_id(m);
         sim::ev(E_PROBE_IN, m_id, cid);
         sim::yield("probe-send");
         sim::ev(E_PROBE_OUT, m_id, cid);
@@ -223,7 +205,7 @@ HandlerPtr build(const Node &n)
     if (k == "fnfilter") {
         int m = n.a + 2;
         return FunctionFilterPtr::create([m](const LogMessage &lm) {
-            int cid = parse_call_id(lm.message());
+            int cid = parse_call_id(lm);
             return ((cid & 0xffff) % m) != 0;
         });
     }
@@ -236,7 +218,7 @@ HandlerPtr build(const Node &n)
     if (k == "yielder") {
         int id = n.id, yields = n.a, sleep_us = n.b;
         return FunctionHandlerPtr::create([id, yields, sleep_us](LogMessage &lm) {
-            int cid = parse_call_id(lm.message());
+            int cid = parse_call_id(lm);
             sim::ev(E_H_IN, id, cid);
             for (int i = 0; i < yields; i++)
                 sim::yield("handler");
@@ -251,7 +233,7 @@ HandlerPtr build(const Node &n)
         // from a synchronous caller is not supported by the library: its handler mutex is not recursive)
         int m = n.a < 2 ? 2 : n.a;
         return FunctionHandlerPtr::create([m](LogMessage &lm) {
-            int cid = parse_call_id(lm.message());
+            int cid = parse_call_id(lm);
             int s = sim::self();
             if (cid < 0 || (cid >> 16) == kNestedProducer || s < 0 || s >= 64 || !C->is_worker[s])
                 return true;
@@ -276,7 +258,7 @@ HandlerPtr build(const Node &n)
             if (s < 0 || s >= 64 || !C->is_worker[s] || C->slow_done[id])
                 return true;
             C->slow_done[id] = true;
-            int cid = parse_call_id(lm.message());
+            int cid = parse_call_id(lm);
             sim::ev(E_H_IN, id, cid);
             sim::sleep_ns((int64_t)ms * sim::MS);
             sim::ev(E_H_OUT, id, cid);
@@ -296,7 +278,7 @@ void build_pipeline(Pipeline *target, const Node &root)
 {
     target->append(FunctionHandlerPtr::create([](LogMessage &lm) {
         note_thread();
-        int cid = parse_call_id(lm.message());
+        int cid = parse_call_id(lm);
         int before = C->inflight.fetch_add(1);
         QByteArray c = content_of(lm, cid);
         sim::ev(E_ENTRY, cid, before, 0, c.constData(), (size_t)c.size());
@@ -304,7 +286,7 @@ void build_pipeline(Pipeline *target, const Node &root)
     }));
     target->append(build(root));
     target->append(FunctionHandlerPtr::create([](LogMessage &lm) {
-        int cid = parse_call_id(lm.message());
+        int cid = parse_call_id(lm);
         C->inflight.fetch_sub(1);
         sim::ev(E_EXIT, cid);
         return true;
@@ -363,8 +345,11 @@ void do_log(int producer, int opidx, const Op &op, bool fatal)
 {
     const Plan &P = *C->plan;
     int cid = call_id(producer, opidx);
-    QByteArray text = "m" + QByteArray::number(producer) + "." + QByteArray::number(opidx) + " "
-            + QByteArray::fromStdString(op.s);
+    int flags0 = op.c >> 16;
+    QByteArray text = (flags0 & 4) ? QByteArray::fromStdString(op.s) // bare text: may equal other messages' texts
+                                   : "m" + QByteArray::number(producer) + "." + QByteArray::number(opidx) + " "
+                    + QByteArray::fromStdString(op.s);
+    const int line = cid + 1;
     if (op.e > 0) {
         text += ' ';
         QByteArray pad(op.e, 'p');
@@ -384,7 +369,7 @@ void do_log(int producer, int opidx, const Op &op, bool fatal)
     sim::ev(E_INVOKE, cid);
     sim::clock_reads_begin();
     if (C->logger && P.target != "bare") {
-        QMessageLogger ml(file, op.d, func, cat);
+        QMessageLogger ml(file, line, func, cat);
         switch (type) {
         case QtDebugMsg:
             ml.debug("%s", text.constData());
@@ -403,7 +388,7 @@ void do_log(int producer, int opidx, const Op &op, bool fatal)
             break;
         }
     } else if (C->oth) {
-        QMessageLogContext mctx(file, op.d, func, cat);
+        QMessageLogContext mctx(file, line, func, cat);
         LogMessage lmsg(type, mctx, QString::fromUtf8(text));
         if (flags & 1)
             lmsg.setFormattedMessage(QStringLiteral("PRE<%1>").arg(cid));
@@ -451,7 +436,7 @@ void run_ops(int producer, const std::vector<Op> &ops)
             // through Qt's macros whatever the state of the logger (e.g. after it was destroyed: the
             // message handler is still installed and must drop the message, not touch a dead object)
             QByteArray text = "q" + QByteArray::number(producer) + "." + QByteArray::number((int)i) + " after-destroy";
-            QMessageLogger("late.cpp", 1, "void late()", "default").warning("%s", text.constData());
+            QMessageLogger("late.cpp", 0, "void late()", "default").warning("%s", text.constData());
         } else if (k == "log") {
             do_log(producer, (int)i, op, false);
         } else if (k == "fatal") {
